@@ -548,6 +548,8 @@ type dkind =
 
 val classify : shared -> st -> op -> dkind
 
+val pm3_tx : shared -> op option -> nat -> kont -> shared * nat list
+
 val cur_op : thread -> op option
 
 val setpc : thread -> pc -> thread
